@@ -57,6 +57,16 @@ def main():
     else:
         ks = [int(x) for x in a.cases.split(",") if x != ""]
     t0 = time.time()
+    # reach sensor: worker 0 records which lines of persim it executed (coverage.py on sys.monitoring); evidence only
+    cov = None
+    if a.wid == 0 and os.environ.get("VERIF_NO_COVER") != "1":
+        try:
+            os.environ.setdefault("COVERAGE_CORE", "sysmon")
+            import coverage
+            cov = coverage.Coverage(data_file=None, include=[os.path.join(repo, "persim", "*")], branch=False)
+            cov.start()
+        except Exception:
+            cov = None
     harness_errors = []
     n_hangs = 0
     hangs = []
@@ -64,7 +74,14 @@ def main():
     try:
         if hasattr(mod, "setup"):
             mod.setup(ctx)
+        n_done = 0
+        cov_on = True
+        cov_budget = max(10, len(ks) // 40)     # coverage only on a small leading slice of worker 0 (it slows python loops several-fold)
         for k in ks:
+            n_done += 1
+            if cov is not None and cov_on and (n_done == cov_budget + 1 or time.time() - t0 > 2.0):
+                cov.stop()      # case count or 2 s, whichever comes first: reach evidence must not dominate the run time
+                cov_on = False
             if time.time() - t0 > a.soft_deadline:
                 ctx.note("soft_deadline_hit")
                 break
@@ -102,7 +119,21 @@ def main():
             mod.teardown(ctx)
     except Exception as e:
         harness_errors.append({"case": None, "error": repr(e), "tb": traceback.format_exc()[-3000:]})
+    line_cov = {}
+    if cov is not None:
+        try:
+            try:
+                cov.stop()
+            except Exception:
+                pass
+            for f in cov.get_data().measured_files():
+                _, stmts, _, missing, _ = cov.analysis2(f)
+                line_cov[os.path.relpath(f, repo)] = {"statements": len(stmts), "executed": len(stmts) - len(missing),
+                                                      "missing": list(missing)}
+        except Exception as e:
+            line_cov = {"error": repr(e)}
     out = ctx.dump()
+    out["line_coverage"] = line_cov
     out["harness_errors"] = harness_errors
     from vmon.util import jsonable
     out["hangs"] = jsonable(hangs)
